@@ -3,6 +3,7 @@ package main
 // SMT-LIB plumbing: sort/function declaration tracking, query assembly, solver race.
 
 import (
+	"syscall"
 	"runtime"
 	"bytes"
 	"context"
@@ -470,6 +471,11 @@ func Solve(script string, timeout time.Duration, wantModel bool) SolverResult {
 			t0 := time.Now()
 			argv := append(append([]string{}, s.argv[1:]...), file)
 			cmd := exec.CommandContext(ctx, s.argv[0], argv...)
+			// a solver must not outlive the check that started it (a killed check would otherwise leave solvers spinning)
+			// (Pdeathsig is delivered when the creating OS thread exits: the goroutine stays on its thread until the solver ends)
+			runtime.LockOSThread()
+			defer runtime.UnlockOSThread()
+			cmd.SysProcAttr = &syscall.SysProcAttr{Pdeathsig: syscall.SIGKILL}
 			var out bytes.Buffer
 			cmd.Stdout = &out
 			cmd.Stderr = &out
